@@ -98,8 +98,14 @@ def drive(items, extra_paths=None):
 def validate(res, traces, wd):
     """returns list of (trace, [clauses]) for conclusive traces; counts inconclusive ones"""
     good = [t for t in traces if t["solves"]]
-    res.inconclusive += sum(1 for t in traces if t["note"])
+    res.inconclusive += sum(1 for t in traces if t["note"].startswith("inconclusive"))
     out = []
+    for t in traces:
+        if t["note"].startswith("raises:") and not t["solves"]:
+            # solve() raised and nothing could be observed afterwards: one pseudo-trace with the crash clause
+            t["solves"] = []
+            out.append((t, [[0, "ALL", "solve-raises: " + t["note"][7:], 0]]))
+    good = [t for t in good if not (t["note"].startswith("raises:") and not t["solves"])]
     B = 400
     for s in range(0, len(good), B):
         chunk = good[s:s + B]
@@ -213,3 +219,17 @@ def replay_family(pid, path, select, extra_paths=None):
     res.distinct_nontrivial = 1
     rmwork(pid + "-replay")
     return finish(res)
+
+
+def crash(t, c, pid, only_wrapper=None):
+    """A solve of a valid model raised an exception (clause family ALL): a violation for the properties that
+    promise a result.  Returns (signature, text) or None."""
+    step, prop, name, detail = c
+    if prop != "ALL":
+        return None
+    k = step - 1 if step >= 1 else len(t["solves"])
+    opts = t["item"]["solves"][min(k, len(t["item"]["solves"]) - 1)]
+    w = opts.get("wrapper", "cvxpy")
+    if only_wrapper and w != only_wrapper:
+        return None
+    return "%s|%s|%s" % (pid, name, w), "solve() of a valid model raised instead of returning: %s %s" % (name, t.get("raise_msg", ""))
